@@ -29,9 +29,15 @@ type c02Case struct {
 func init() {
 	engine.Register(&engine.Check{
 		ID: "C02", Level: "model_checking",
-		Rule:   "BFS over operation histories (depth <=5 quick, <=6 thorough) on real Polygon/MultiPoint/MultiLineString/MultiPolygon/GeometryCollection objects; alphabet = Push(part) for a per-type part menu incl. empty parts, parts with empty sub-parts and the receiver's own part accessors (storage aliasing), Push(wrong-layout part, same and different stride), for polygons a Push while the polygon is lent to a MultiPolygon whose accessor result is pushed to as well (either order), Reverse, Swap with a second geometry, g=g.Clone() keeping both sides live with their own models, switching between the two sides; start states: empty and three parts already pushed, for collections variadic Push with one bad member, Push of a spread slice that the caller overwrites afterwards, and SetLayout; invariants evaluated in every state against a list-of-parts model; states deduplicated on the full observable state incl. capacity Round 7: Layout(n>4) and XYZM at depth 3 in the quick tier; the wrong-layout Push tries every part of the menu; layout-less (NoLayout) geometries of the four Push-capable types to depth 4 with Reverse under a watchdog.",
-		Run:    c02Run,
-		Replay: func(c *engine.Ctx, kind string, raw json.RawMessage) { c02Exec(c, decodeCase[c02Case](raw), nil) },
+		Rule: "BFS over operation histories (depth <=5 quick, <=6 thorough) on real Polygon/MultiPoint/MultiLineString/MultiPolygon/GeometryCollection objects; alphabet = Push(part) for a per-type part menu incl. empty parts, parts with empty sub-parts and the receiver's own part accessors (storage aliasing), Push(wrong-layout part, same and different stride), for polygons a Push while the polygon is lent to a MultiPolygon whose accessor result is pushed to as well (either order), Reverse, Swap with a second geometry, g=g.Clone() keeping both sides live with their own models, switching between the two sides; start states: empty and three parts already pushed, for collections variadic Push with one bad member, Push of a spread slice that the caller overwrites afterwards, and SetLayout; invariants evaluated in every state against a list-of-parts model; states deduplicated on the full observable state incl. capacity Round 7: Layout(n>4) and XYZM at depth 3 in the quick tier; the wrong-layout Push tries every part of the menu; layout-less (NoLayout) geometries of the four Push-capable types to depth 4 with Reverse under a watchdog.",
+		Run:  c02Run,
+		Replay: func(c *engine.Ctx, kind string, raw json.RawMessage) {
+			if kind == "c02zero" {
+				c02ZeroReplay(c, decodeCase[*ref.G](raw))
+				return
+			}
+			c02Exec(c, decodeCase[c02Case](raw), nil)
+		},
 		Assumptions: []string{
 			"Merging states on (type, layout, flat bits, ends, endss, capacity, SRID) of receiver, swap partner and clone shadow is sound: every operation of the alphabet is a function of those observables",
 			"Histories longer than the depth bound and parts larger than 3 coordinates are not explored",
@@ -846,10 +852,108 @@ func c02Run(c *engine.Ctx) {
 		c.Count("states", int64(len(seen)))
 		c.Sample(j.k.String(), 1, map[string]any{"kind": j.k.String(), "layout": j.l.String(), "states": len(seen), "alphabet": opNames(ops)})
 	}
+	c02SignedZeros(c)
 	c.Count("traces_validated_against_impl", c.Get("evaluations"))
 	c.Count("distinct_nontrivial", c.Get("states"))
 	c.Note("depth_completed", maxDepthDone)
 }
+
+// c02SignedZeros: Reverse over coordinates that differ in the SIGN OF ZERO only. For every type
+// with a Reverse method, three layouts, parts of 1..4 vertices, every ordinate column and every
+// assignment of +0 / -0 to that column (the other columns count up): the whole geometry (two
+// parts, the second with the complementary pattern) is built through the model, reversed, and
+// must equal the model with every part reversed bit for bit (+0 and -0 compare equal as numbers,
+// so a swap that is skipped for "equal" values shows only here).
+func c02SignedZeros(c *engine.Ctx) {
+	negZero := ref.F(math.Copysign(0, -1))
+	type job struct {
+		k ref.Kind
+		l geom.Layout
+		n int
+	}
+	var jobs []job
+	for _, k := range []ref.Kind{ref.LineString, ref.LinearRing, ref.Polygon, ref.MultiPoint, ref.MultiLineString, ref.MultiPolygon} {
+		for _, l := range []geom.Layout{geom.XY, geom.XYZM, geom.Layout(5)} {
+			for n := 1; n <= 4; n++ {
+				jobs = append(jobs, job{k, l, n})
+			}
+		}
+	}
+	c.Parallel(len(jobs), func(ji int) {
+		j := jobs[ji]
+		for col := 0; col < j.l.Stride(); col++ {
+			for pat := 0; pat < 1<<j.n; pat++ {
+				line := func(p int) []ref.C {
+					cs := ref.NewLine(ref.LineString, j.l, j.n, ref.CounterFrom(float64(10+p))).C1
+					for i := range cs {
+						cs[i][col] = 0
+						if p>>i&1 == 1 {
+							cs[i][col] = negZero
+						}
+					}
+					return cs
+				}
+				a, b := line(pat), line(^pat&(1<<j.n-1))
+				var m *ref.G
+				switch j.k {
+				case ref.LineString, ref.LinearRing:
+					m = &ref.G{Kind: j.k, Layout: j.l, C1: a}
+				case ref.MultiPoint:
+					m = &ref.G{Kind: j.k, Layout: j.l, C1: append(append([]ref.C{}, a...), b...)}
+				case ref.Polygon, ref.MultiLineString:
+					m = &ref.G{Kind: j.k, Layout: j.l, C2: [][]ref.C{a, b}}
+				case ref.MultiPolygon:
+					m = &ref.G{Kind: j.k, Layout: j.l, C3: [][][]ref.C{{a}, {b, a}}}
+				}
+				c02ZeroCheck(c, m)
+			}
+		}
+	})
+}
+
+// c02ZeroCheck reverses one geometry built from the model and compares it bit for bit with the
+// model whose parts are reversed.
+func c02ZeroCheck(c *engine.Ctx, m *ref.G) {
+	t := m.MustBuild()
+	want := m.Clone()
+	rev := func(cs []ref.C) {
+		for x, y := 0, len(cs)-1; x < y; x, y = x+1, y-1 {
+			cs[x], cs[y] = cs[y], cs[x]
+		}
+	}
+	if m.Kind == ref.LineString || m.Kind == ref.LinearRing {
+		rev(want.C1) // (every point of a MultiPoint is a part of one vertex: nothing to reverse)
+	}
+	for _, r := range want.C2 {
+		rev(r)
+	}
+	for _, pl := range want.C3 {
+		for _, r := range pl {
+			rev(r)
+		}
+	}
+	c.Count("evaluations", 1)
+	c.Count("signed_zero_reversals", 1)
+	var d string
+	if p, _ := engine.Guard(func() {
+		switch tt := t.(type) {
+		case *geom.LineString:
+			tt.Reverse()
+		case *geom.LinearRing:
+			tt.Reverse()
+		default:
+			reverseT(t)
+		}
+		d = observeEq(t, want, ref.EqualOpt{})
+	}); p != nil {
+		d = fmt.Sprintf("panic %v", p)
+	}
+	if d != "" {
+		c.Violate(fmt.Sprintf("%s/%s/Reverse/signed-zero", m.Kind, m.Layout), fmt.Sprintf("Reverse of %s: %s", m, d), "c02zero", m)
+	}
+}
+
+func c02ZeroReplay(c *engine.Ctx, m *ref.G) { c02ZeroCheck(c, m) }
 
 func opNames(ops []c02Op) []string {
 	var out []string
